@@ -121,6 +121,9 @@ var curatedGrammars = []string{
 	"s = A* B* C*", "s = x? y? z?; x = A; y = B; z = C", "s = A B? C | A A? A",
 	// list sugar in every position, shared helpers, *! filtering
 	"s = A* B+ C? A*", "s = L(a,COMMA) SEMI L(a,COMMA)?; a = A | B", "s = t*! u+; t = A | B B; u = C",
+	// two lists over DIFFERENT tokens with the same separator, elements written as literals (tokens 1 and 4 are
+	// printed as literals); the same with optional lists and with rule elements
+	"s = A L(B,C) D L(E,C)", "s = A L(B,C)? D L(E,C)? A", "s = L(x,C) D L(y,C); x = A B; y = A E",
 	// names: rule names that sort before token names (worklist order in ConstructLALR), nesting with a self-loop state
 	"Doc = Expr; Expr = OPEN Expr CLOSE | NUM", "Aa = Bb ZZ | YY Bb XX; Bb = WW Bb VV | UU | @empty",
 	// classic: LALR(1) but not SLR(1); expression grammar without precedence
